@@ -305,18 +305,18 @@ def rule_make_link(ck, lk, mk, sub):
                 try:
                     v = rich_fold(n.ast, env)
                 except q.NotFoldable:
-                    env["@undecided"] = tuple(sorted(set(env.get("@undecided", ())) | {q.unparse(n.ast)}))
+                    env["@g8_undecided"] = tuple(sorted(set(env.get("@g8_undecided", ())) | {q.unparse(n.ast)}))
                     return None
                 if bool(v) != (kind == "true"):
                     return STOP
                 return None
 
-            states = peval(cfg, {req: rq, perm: PERMITTED, "@undecided": ()}, hook=hook, on_edge=on_edge, follow_exc=False, refine=False, pure_methods=PURE_STR | {"group", "split", "rfind", "find", "replace", "format", "join", "partition"})
+            states = peval(cfg, {req: rq, perm: PERMITTED, "@g8_undecided": ()}, hook=hook, on_edge=on_edge, follow_exc=False, refine=False, pure_methods=PURE_STR | {"group", "split", "rfind", "find", "replace", "format", "join", "partition"})
             expected = (proto in PERMITTED) or (not proto and not rq)
             case = "proto=%r require_protocol=%s" % (proto, rq)
             for r in rets:
                 for _facts, env in states.get(r.id, []):
-                    und = [t for t in env.get("@undecided", ()) if {x for x in q.names_in(ast.parse(t, mode="eval"))} & ({req, perm} | {nm for binds in group_nodes.values() for nm, g in binds if g == 2})]
+                    und = [t for t in env.get("@g8_undecided", ()) if {x for x in q.names_in(ast.parse(t, mode="eval"))} & ({req, perm} | {nm for binds in group_nodes.values() for nm, g in binds if g == 2})]
                     if r in anchors:
                         n_anchor += 1
                         if und:
@@ -991,9 +991,9 @@ def _is_found_test(c, amp):
 
 
 def run(ck):
-    from ..x_valuewalk import guard_obligations, plain_assignments
+    from ..x_valuewalk import guard_obligations, canonical
 
-    ck.repo = plain_assignments(ck.repo, ['tornado/escape.py'])
+    ck.repo = canonical(ck.repo, ['tornado/escape.py'], keep_names=('_DEFAULT_AUTOESCAPE',))
 
     guard_obligations(ck, [])
     ck.rule("C22.escape-first", "linkify applies the URL regex to xhtml_escape(text) and returns the substitution result")
